@@ -777,7 +777,7 @@ func (z *ZodObject[T, R]) validateObject(value map[string]any, chks []core.ZodCh
 	}
 
 	if len(errs) > 0 {
-		return nil, issues.CreateArrayValidationIssues(errs)
+		return nil, issues.CreateArrayValidationIssues(errs, ctx)
 	}
 	return result, nil
 }
